@@ -54,6 +54,7 @@ Step(e) ==
     \/ e.ev = "match"       /\ AMatch(e)
     \/ e.ev = "dit_open"    /\ ADitOpen(e)
     \/ e.ev = "dit_next"    /\ ADitNext(e)
+    \/ e.ev = "dit_close"   /\ ADitClose(e)
     \/ e.ev = "stats"       /\ AStats(e)
     \/ e.ev = "stats_merge" /\ AStatsMerge(e)
     \/ e.ev = "stats_get"   /\ AStatsGet(e)
@@ -69,6 +70,7 @@ Step(e) ==
     \/ e.ev = "race_report" /\ ARace(e)
     \/ e.ev = "wfault"      /\ AWFault(e)
     \/ e.ev = "merge_fsweep" /\ AMergeFSweep(e)
+    \/ e.ev = "load_fsweep" /\ ALoadFSweep(e)
     \/ e.ev = "reset"       /\ AReset
     \/ e.ev = "skip"        /\ obs' = NoObs /\ Frame
 
